@@ -403,6 +403,9 @@ def replay_behaviour(beh, cfg, tables, tid, N, seed):
             if k == "expec":
                 q["G"] = dw_array(tables["ops"][q["op"]])
             fields = {kk: vv for kk, vv in q.items() if kk not in ("G",)}
+            if k == "sample" and cfg.cls not in ("Circuit", "CircuitDense"):
+                for kk in ("order", "gs", "qubits"):       # not arguments of the MPS samplers: not passed, not recorded
+                    fields.pop(kk, None)
             # wires whose initial tensor is still directly the output leg (see KF-C07-3)
             if k == "uni":
                 fields["bare"] = _bare_wires(o.accepted, N)
@@ -450,7 +453,7 @@ def enum_behaviour(seq3, k):
           {"op": "query", "q": {"kind": "ptr", "keep": [2, 0], "opt": "seq"}}]
     for q in ({"kind": "expec", "op": "ZX", "where": [2, 0], "opt": "seq"}, {"kind": "expec", "op": "Z", "where": [0], "opt": "dtype"}):
         b += [{"op": "query", "q": dict(q)}, {"op": "query", "q": dict(q)}]
-    b += _sample_block()
+    b += _sample_block()[1:3] + _sample_block()[-2:-1]     # again after all that happened to the two objects (short form)
     return b
 
 
@@ -459,9 +462,9 @@ def _sample_block():
     conditional memo must be keyed by which qubits were fixed), followed by expectations near site 0 (the MPS
     samplers must not touch the canonical-form record of the stored state)"""
     return [{"op": "query", "q": dict(q)} for q in (
-        {"kind": "sample", "order": [2, 1, 0], "gs": 1, "C": 8, "opt": ""},
-        {"kind": "sample", "order": [0, 1, 2], "gs": 1, "C": 8, "opt": ""},
-        {"kind": "sample", "order": [1, 2, 0], "gs": 1, "C": 8, "opt": ""},
+        {"kind": "sample", "order": [2, 1, 0], "gs": 1, "C": 16, "opt": ""},
+        {"kind": "sample", "order": [0, 1, 2], "gs": 1, "C": 16, "opt": ""},
+        {"kind": "sample", "order": [1, 2, 0], "gs": 1, "C": 16, "opt": ""},
         {"kind": "sample", "order": [1, 0], "qubits": [0, 1], "gs": 1, "C": 4, "opt": ""},
         {"kind": "sample", "opt": ""},
         {"kind": "expec", "op": "Z", "where": [0], "opt": ""}, {"kind": "expec", "op": "P01", "where": [1], "opt": ""})]
@@ -1051,9 +1054,13 @@ def run(ctx):
     for k, seq3 in enumerate(enum):
         b = enum_behaviour(seq3, k)
         # thorough tier: the exact class and every second other configuration (alternating with k)
-        use = [cfgs[0]] + ([others[(k + ctx.seed) % len(others)]] if quick else [c for i, c in enumerate(others) if (i + k) % 2 == 0])
-        if quick:       # quick tier: a third of the sequences on the exact class, two thirds on one other configuration
-            use = ([use[0]] if k % 3 == ctx.seed % 3 else []) + ([use[1]] if k % 3 != (ctx.seed + 1) % 3 else [])
+        use = [cfgs[0]] + ([others[(k // 2 + ctx.seed) % len(others)]] if quick else [c for i, c in enumerate(others) if (i + k) % 2 == 0])
+        if quick:       # quick tier: a third of the sequences on the exact class, half of them on one other configuration in turn
+            names = [(g["name"], tuple(g["q"])) for g in seq3]
+            # (sequences that entangle qubits 0 and 1 always run on the exact class: there the conditionals of the
+            #  sampler depend on WHICH qubit was fixed, the case the repeated sample(order=...) calls are for)
+            bell = ("H", (0,)) in names and ("CX", (0, 1)) in names and names.index(("H", (0,))) < names.index(("CX", (0, 1)))
+            use = ([use[0]] if k % 3 == ctx.seed % 3 or bell else []) + ([use[1]] if k % 2 == ctx.seed % 2 else [])
         for cfg in use:
             recs += replay_behaviour(b, cfg, tables, tid, 3, 7000 + k)
             tid += 1
